@@ -335,6 +335,7 @@ def build_odp(seed: int, feature: str | None = None, twin: bool = False):
     feature_slide = rng.randrange(n_slides)
     n_img = 0
     logo = None
+    cell_rng = random.Random(f"odp-cells:{seed}")
     if feature == "shared-picture":
         n_slides = max(2, n_slides)
     for s in range(n_slides):
@@ -381,7 +382,18 @@ def build_odp(seed: int, feature: str | None = None, twin: bool = False):
                     grow, tcs = [], []
                     for j in range(cols):
                         t = [exp.table_only(tk.new("c"), s) for _ in range(rng.randint(1, 2))]
-                        tcs.append(f'<table:table-cell><text:p>{" ".join(t)}</text:p></table:table-cell>')
+                        shape = cell_rng.random()
+                        if shape < 0.8:
+                            tcs.append(f'<table:table-cell><text:p>{" ".join(t)}</text:p></table:table-cell>')
+                        elif shape < 0.9:
+                            # a bulleted cell, as Impress writes it: the paragraphs sit in list items
+                            items = "".join(f"<text:list-item><text:p>{x}</text:p></text:list-item>" for x in t)
+                            tcs.append(f"<table:table-cell><text:list>{items}</text:list></table:table-cell>")
+                        else:
+                            # a plain paragraph followed by a bullet
+                            extra = exp.table_only(tk.new("c"), s)
+                            tcs.append(f'<table:table-cell><text:p>{" ".join(t)}</text:p><text:list><text:list-item><text:p>{extra}</text:p></text:list-item></text:list></table:table-cell>')
+                            t = t + [extra]
                         grow.append({"toks": t})
                     grid.append(grow)
                     tr = f'<table:table-row>{"".join(tcs)}</table:table-row>'
